@@ -21,6 +21,10 @@ pub enum L {
     /// error line
     Noise(u8),
     Blank,
+    /// error line of `kib` KiB
+    LongNoise(u16),
+    /// look-alike header (`# pg_map_id: xxxx…`) of `kib` KiB
+    LongHeader(u16),
 }
 
 pub const HEADER_KEYS: &[&str] = &["compiler", "compiler_version", "min_api", "pg_map_id", "min_apix", "Compiler"];
@@ -65,6 +69,8 @@ fn line_text(l: &L, i: usize) -> String {
         L::Header(k, 0) => format!("# {}", HEADER_KEYS[*k as usize % HEADER_KEYS.len()]),
         L::Header(k, v) => format!("# {}: {}", HEADER_KEYS[*k as usize % HEADER_KEYS.len()], HEADER_VALUES[*v as usize % HEADER_VALUES.len()].0),
         L::Noise(n) => NOISE[*n as usize % NOISE.len()].to_string(),
+        L::LongNoise(k) => format!("garbage{}", "z".repeat(*k as usize * 1024)),
+        L::LongHeader(k) => format!("# pg_map_id: {}", "h".repeat(*k as usize * 1024)),
         L::Blank => String::new(),
     }
 }
@@ -311,6 +317,14 @@ pub fn seg() -> impl Strategy<Value = Seg> {
 /// deterministic long files: the deciding record after 65535 / 65536 / 65537 / 70000 negatives
 pub fn long_cases() -> Vec<MetaCase> {
     let mut v = Vec::new();
+    // the first 50 items extend beyond 1 MiB (items are counted, not bytes)
+    for crlf in [false, true] {
+        v.push(MetaCase { segs: vec![Seg { line: L::LongNoise(24), reps: 48 }, Seg { line: L::Class, reps: 1 }, Seg { line: L::Field, reps: 1 }], final_eol: true, crlf });
+        v.push(MetaCase { segs: vec![Seg { line: L::LongNoise(24), reps: 49 }, Seg { line: L::Class, reps: 1 }, Seg { line: L::Field, reps: 1 }], final_eol: true, crlf });
+        v.push(MetaCase { segs: vec![Seg { line: L::LongHeader(1100), reps: 1 }, Seg { line: L::Class, reps: 1 }, Seg { line: L::MethodMapped, reps: 1 }], final_eol: false, crlf });
+        v.push(MetaCase { segs: vec![Seg { line: L::Class, reps: 1 }, Seg { line: L::LongHeader(2100), reps: 1 }, Seg { line: L::Header(2, 2), reps: 1 }, Seg { line: L::MethodUnmapped(1), reps: 1 }], final_eol: true, crlf });
+        v.push(MetaCase { segs: vec![Seg { line: L::LongHeader(64), reps: 20 }, Seg { line: L::Class, reps: 1 }, Seg { line: L::MethodMapped, reps: 1 }], final_eol: true, crlf });
+    }
     for n in [65535u32, 65536, 65537, 70000] {
         for neg in [L::MethodUnmapped(0), L::Noise(0), L::Header(3, 1), L::Class] {
             for crlf in [false, true] {
